@@ -50,6 +50,8 @@ def catalogue(quick=True):
             out.append(('dtcwt-inv', dict(biort=b, qshift=q, H=H, W=W, J=J, mode=mode, o_dim=2, ri_dim=-1, absent=0)))
         out.append(('dtcwt-fwd', dict(biort=b, qshift=q, H=H, W=W, J=J, mode='symmetric', o_dim=1, ri_dim=3, skip=1, scales=2)))
         out.append(('dtcwt-inv', dict(biort=b, qshift=q, H=H, W=W, J=J, mode='symmetric', o_dim=2, ri_dim=-1, absent=1)))
+        out.append(('dtcwt-inv', dict(biort=b, qshift=q, H=H, W=W, J=J, mode='symmetric', o_dim=2, ri_dim=-1, absent=2,
+                                      absent_kind='empty')))
     for fn in ('colfilter', 'rowfilter', 'coldfilt', 'rowdfilt', 'colifilt', 'rowifilt'):
         for hp in (False, True):
             out.append(('dtcwt-lowlevel', dict(fn=fn, H=8, W=12, highpass=hp, mode='symmetric')))
@@ -213,7 +215,12 @@ def build(S, kind, p, nb=2, c=3, requires_grad=False, contig=True, module=None):
         lst.frozen = False
         for j, (bh, t) in enumerate(hs):
             if (p['absent'] >> j) & 1:
-                lst.append(None)
+                if p.get('absent_kind') == 'empty':
+                    # the 0-dim placeholder DTCWTForward(skip_hps=...) hands out for a skipped scale
+                    from .. import ops
+                    lst.append(ops.zeros([], 'in'))
+                else:
+                    lst.append(None)
                 continue
             t.requires_grad = requires_grad
             t.contig = contig
